@@ -95,3 +95,35 @@ Example C01_nonvacuous :
   map denied_of (fst (run exact None ex_txs))
   = [0; 0; 0; 0; 0; q (-139) 75; 0; 0; 0]%Qc.
 Proof. vm_compute. repeat split. Qed.
+
+(* The rounding clause of the property ("any deviation from the exact result
+   ... at most 1e-9") is REFUTED for the faithful model under rust_decimal
+   rounding once amounts reach about 1e16 and more: 28 significant digits lose
+   up to ~1e-28 x M on an amount of size M.  Two accepted rows with in-range
+   cells (|x| < 1e12, at most 10 decimals), gain under rounding vs exact gain
+   differ by 1/7000000 > 1e-9.  Replayed on the real code on every run and
+   listed as the known finding "large-magnitude"; outside that class (all
+   exact figures of the security below 1e16) the check enforces the 1e-9 bound
+   on every generated history (measured, not proved: the error of ONE operation
+   is bounded by C01_rounding_error_per_operation). *)
+Definition w_big : list tx := [
+  mk 100 (Buy (q 700000000000 1) (q 100000000000 1) (q 1 1) (q 1 1) (q 1 1)) default_aff;
+  mk 200 (Sell (q 100000000000 1) (q 200000000000 1) (q 0 1) (q 1 1) (q 1 1) None) default_aff].
+Definition gain_of (A : arith) (l : list tx) (k : nat) : option Qc :=
+  match nth_error (fst (run A None l)) k with Some d => d_gain d | None => None end.
+Theorem C01_dec_close_refuted :
+  forallb valid_tx w_big = true /\
+  snd (run dec None w_big) = None /\ snd (run exact None w_big) = None /\
+  exists gd ge, gain_of dec w_big 1 = Some gd /\ gain_of exact w_big 1 = Some ge /\
+                (q 1 1000000000 < gd - ge)%Qc.
+Proof.
+  split; [vm_compute; reflexivity|]. split; [vm_compute; reflexivity|]. split; [vm_compute; reflexivity|].
+  exists (q 9999999999999999999999857143 1000000), (q 69999999999999999999999 7).
+  split; [vm_compute; reflexivity|]. split; [vm_compute; reflexivity|]. vm_compute. reflexivity.
+Qed.
+Check C01_dec_close_refuted :
+  forallb valid_tx w_big = true /\
+  snd (run dec None w_big) = None /\ snd (run exact None w_big) = None /\
+  exists gd ge, gain_of dec w_big 1 = Some gd /\ gain_of exact w_big 1 = Some ge /\
+                (q 1 1000000000 < gd - ge)%Qc.
+Print Assumptions C01_dec_close_refuted.
